@@ -523,12 +523,44 @@ theorem base32Encode_shape (data : Bytes) (custom : Option (List Char))
       rw [translate_append, translate_replicate_of_not_mem _ _ _ _ (by decide)]
     · intro x hx e; rw [e] at hx; exact haeq (hmem _ hx)
 
-/-- decoding the padded encoding, standard or custom alphabet -/
-theorem base32Decode_base32Encode (data : Bytes) (custom : Option (List Char))
+/-- the input of `b32decodeStd` inside `base32Decode`: re-padded, translated to the standard alphabet -/
+def base32Pre (s : List Char) (custom : Option (List Char)) : List Char :=
+  match custom with
+  | some a => translate a b32Std (addPadding s)
+  | none => addPadding s
+
+/-- `base32Decode` in flat form: stdlib decoding followed by the canonical re-encoding check -/
+theorem base32Decode_eq (s : List Char) (custom : Option (List Char)) :
+    base32Decode s custom = match b32decodeStd (base32Pre s custom) with
+      | .error e => .error e
+      | .ok dec => if base32EncodeNoPad dec custom = rstripChar '=' s then .ok dec else .error .value := by
+  unfold base32Decode base32Pre
+  cases custom with
+  | none =>
+    simp only
+    cases b32decodeStd (addPadding s) with
+    | error e => rfl
+    | ok dec =>
+      simp only [bind, Except.bind]
+      by_cases h : base32EncodeNoPad dec none = rstripChar '=' s
+      · rw [if_pos h, if_neg (by simpa using h)]; rfl
+      · rw [if_neg h, if_pos (by simpa using h)]; rfl
+  | some a =>
+    simp only
+    cases b32decodeStd (translate a b32Std (addPadding s)) with
+    | error e => rfl
+    | ok dec =>
+      simp only [bind, Except.bind]
+      by_cases h : base32EncodeNoPad dec (some a) = rstripChar '=' s
+      · rw [if_pos h, if_neg (by simpa using h)]; rfl
+      · rw [if_neg h, if_pos (by simpa using h)]; rfl
+
+/-- the stdlib decoder, applied to the re-padded and re-translated library encoding -/
+theorem b32decodeStd_base32Pre_encode (data : Bytes) (custom : Option (List Char))
     (hc : ∀ a, custom = some a → Base32AlphabetOk a) :
-    base32Decode (base32Encode data custom) custom = .ok data := by
+    b32decodeStd (base32Pre (base32Encode data custom) custom) = .ok data := by
   obtain ⟨X, p, he, hX, hlen, hp⟩ := b32encodeStd_shape data
-  unfold base32Decode base32Encode
+  unfold base32Pre base32Encode
   cases custom with
   | none =>
     simp only
@@ -547,6 +579,14 @@ theorem base32Decode_base32Encode (data : Bytes) (custom : Option (List Char))
     rw [this]
     exact b32decodeStd_b32encodeStd data
 
+/-- decoding the padded encoding, standard or custom alphabet -/
+theorem base32Decode_base32Encode (data : Bytes) (custom : Option (List Char))
+    (hc : ∀ a, custom = some a → Base32AlphabetOk a) :
+    base32Decode (base32Encode data custom) custom = .ok data := by
+  rw [base32Decode_eq, b32decodeStd_base32Pre_encode data custom hc]
+  simp only
+  exact if_pos (show base32EncodeNoPad data custom = rstripChar '=' (base32Encode data custom) from rfl)
+
 /-- decoding the unpadded encoding: `Decode` re-adds the padding that `EncodeNoPadding` stripped -/
 theorem base32Decode_base32EncodeNoPad (data : Bytes) (custom : Option (List Char))
     (hc : ∀ a, custom = some a → Base32AlphabetOk a) :
@@ -556,12 +596,40 @@ theorem base32Decode_base32EncodeNoPad (data : Bytes) (custom : Option (List Cha
     unfold base32EncodeNoPad; rw [he]; exact rstripChar_append_replicate '=' X p hX
   have hpad : addPadding X = base32Encode data custom := by
     rw [he]; exact addPadding_strip X p hlen hp
-  have hfull := base32Decode_base32Encode data custom hc
+  have hfull := b32decodeStd_base32Pre_encode data custom hc
   have hmod : (base32Encode data custom).length % 8 = 0 := by rw [he]; simpa using hlen
-  unfold base32Decode at hfull ⊢
-  rw [addPadding_of_mod _ hmod] at hfull
-  rw [hstrip, hpad]
-  exact hfull
+  have hpre : base32Pre X custom = base32Pre (base32Encode data custom) custom := by
+    unfold base32Pre
+    rw [hpad, addPadding_of_mod _ hmod]
+  have hXs : rstripChar '=' X = X := by
+    have := rstripChar_append_replicate '=' X 0 hX
+    simpa using this
+  rw [base32Decode_eq, hstrip, hpre, hfull]
+  simp only
+  rw [hstrip, hXs, if_pos rfl]
+
+/-! ### canonicity -/
+
+/-- **Base32 canonicity**: every accepted string, minus its `=` padding, is the canonical unpadded
+encoding of the decoded payload. -/
+theorem base32_decode_canonical {s : List Char} {custom : Option (List Char)} {b : Bytes}
+    (h : base32Decode s custom = .ok b) : base32EncodeNoPad b custom = rstripChar '=' s := by
+  rw [base32Decode_eq] at h
+  cases hd : b32decodeStd (base32Pre s custom) with
+  | error e => rw [hd] at h; cases h
+  | ok dec =>
+    rw [hd] at h
+    simp only at h
+    by_cases hc : base32EncodeNoPad dec custom = rstripChar '=' s
+    · rw [if_pos hc] at h
+      cases h; exact hc
+    · rw [if_neg hc] at h; cases h
+
+/-- no two different unpadded spellings decode to the same payload. -/
+theorem base32_decode_inj {s s' : List Char} {c : Option (List Char)} {b : Bytes}
+    (h : base32Decode s c = .ok b) (h' : base32Decode s' c = .ok b) :
+    rstripChar '=' s = rstripChar '=' s' := by
+  rw [← base32_decode_canonical h, ← base32_decode_canonical h']
 
 /-- the requested corollaries for the standard alphabet -/
 theorem base32_decode_encode (b : Bytes) : base32Decode (base32Encode b none) none = .ok b :=
